@@ -191,6 +191,17 @@ func readAll(layer string, m *mailbox.Machine, stream []byte, cfg hsCase) (msgs 
 	case "NoiseConn":
 		c := mailbox.VerifNewNoiseConn(s, m)
 		read = func() ([]byte, error) { return c.ReadNextMessage() }
+	case "NoiseConn-split":
+		// the two-step API (header first, then the body into a buffer
+		// of the announced size)
+		c := mailbox.VerifNewNoiseConn(s, m)
+		read = func() ([]byte, error) {
+			n, err := c.ReadNextHeader()
+			if err != nil {
+				return nil, err
+			}
+			return c.ReadNextBody(make([]byte, n))
+		}
 	default:
 		panic("layer")
 	}
@@ -299,14 +310,19 @@ func TestC02(t *testing.T) {
 				}
 			}
 			for di, dir := range []string{"a2b", "b2a"} {
-				layer := "Machine"
-				if (ci+si+di)%2 == 1 {
-					layer = "NoiseConn"
+				all := []string{"Machine", "NoiseConn", "NoiseConn-split"}
+				layers := []string{all[(ci+si+di)%3]}
+				if len(sizes) == 4 && sizes[0] == 2 {
+					// header-sized bodies: every reading layer
+					layers = all
 				}
-				jobs = append(jobs, job{cfg, sizes, dir, layer, nil})
-				for _, e := range singles {
-					jobs = append(jobs, job{cfg, sizes, dir, layer, []edit{e}})
+				for _, layer := range layers {
+					jobs = append(jobs, job{cfg, sizes, dir, layer, nil})
+					for _, e := range singles {
+						jobs = append(jobs, job{cfg, sizes, dir, layer, []edit{e}})
+					}
 				}
+				layer := layers[0]
 				for _, e := range nonflip {
 					jobs = append(jobs, job{cfg, sizes, dir, layer, []edit{e}})
 				}
